@@ -72,6 +72,53 @@ def run(seed=0):
     return out
 
 
+def run_out_buffers(seed=0):
+    """calls that hand NumPy an out= buffer: the forward pass fills the caller's buffer (that is what out= means); the
+    backward pass must not touch it again, the VJP function stays reusable, and the derivative is right"""
+    import numpy as onp
+    import autograd.numpy as np
+    from autograd import make_vjp
+
+    warnings.filterwarnings("ignore")
+    rs = onp.random.RandomState(seed + 3)
+    out = []
+    X = rs.randn(3, 3)
+    cases = [
+        ("einsum('ij,jk->ik', x, x, out=buf)", lambda x, buf: np.einsum("ij,jk->ik", x, x, out=buf), lambda x, g: g @ x.T + x.T @ g),
+        ("einsum('ij,jk->ik', x, A, out=buf, optimize=True)", lambda x, buf: np.einsum("ij,jk->ik", x, X, out=buf, optimize=True), lambda x, g: g @ X.T),
+        ("multiply(x, x, out=buf)", lambda x, buf: np.multiply(x, x, out=buf), lambda x, g: 2.0 * x * g),
+        ("add(x, A, out=buf) * x", lambda x, buf: np.add(x, X, out=buf) * x, None),
+        ("dot(x, x, out=buf)", lambda x, buf: np.dot(x, x, out=buf), lambda x, g: g @ x.T + x.T @ g),
+        ("matmul(x, A, out=buf)", lambda x, buf: np.matmul(x, X, out=buf), lambda x, g: g @ X.T),
+        ("sum(x * x, axis=0, out=buf[0])", lambda x, buf: np.sum(x * x, axis=0, out=buf[0]), lambda x, g: 2.0 * x * g[None, :]),
+    ]
+    for lab, f, closed in cases:
+        key = "MISC out= buffer | %s" % lab
+        x = rs.randn(3, 3)
+        buf = onp.zeros((3, 3))
+        try:
+            vjp, y = make_vjp(lambda z: f(z, buf))(x)
+            y0 = onp.array(y, copy=True)
+            g1, g2 = rs.randn(*onp.shape(y)), rs.randn(*onp.shape(y))
+            r1 = vjp(g1)
+            r1c = onp.array(r1, copy=True)
+            vjp(g2)
+            r3 = vjp(g1)
+            problems = []
+            if not onp.array_equal(onp.asarray(y), y0):
+                problems.append("the forward result handed to the caller (the out= buffer) was overwritten by the backward pass")
+            if not onp.array_equal(onp.asarray(r1), r1c):
+                problems.append("the array returned by the first VJP call was overwritten by a later call")
+            if not onp.allclose(r3, r1c, rtol=1e-12, atol=1e-12):
+                problems.append("a repeated VJP call returned a different answer")
+            if closed is not None and not onp.allclose(r1c, closed(x, g1), rtol=1e-9, atol=1e-10):
+                problems.append("the VJP differs from the closed form")
+            out.append(_res(key, not problems, "; ".join(problems)))
+        except Exception as e:
+            out.append({"key": key, "status": "raises", "detail": "%s: %s" % (type(e).__name__, str(e)[:100]), "paths": 1, "queries": 0, "validated": 0, "verdicts": {}, "prim": "misc"})
+    return out
+
+
 def run_nested(seed=0):
     """nested differentiation through autograd.misc.fixed_points.fixed_point (its reverse rule is itself built from
     nested make_vjp calls and an inner fixed point): orders 2 and 3 of sqrt by Newton's iteration, a Hessian-vector
@@ -112,5 +159,5 @@ def run_nested(seed=0):
 
 
 if __name__ == "__main__":
-    for r in run() + run_nested():
+    for r in run() + run_nested() + run_out_buffers():
         print(r["status"], r["key"], r["detail"])
